@@ -633,7 +633,9 @@ def install(w):
     @w.stub_method(CheckTimerProvider, "provide_check_timer")
     def _ctp(I, self, args, kwargs, node):
         I.ctx.effect("timer", "provide_check_timer", getattr(node, "lineno", None))
-        return SObj(Countdown, {"expired": False}, "check_timer.new")
+        # ghost: for which kind of entity the timer was requested (the provider may hand out different periods per kind)
+        et = kwargs.get("entity_type", args[2] if len(args) > 2 else None)
+        return SObj(Countdown, {"expired": False, "_for_entity": et}, "check_timer.new")
 
     # sequence number provider (ASSUMED contract: returns the current count, then increments; values >= 0 and
     # within the provider's width, which is one of 8/16/32 bits)
